@@ -101,6 +101,9 @@ pub struct Expand {
     /// one ADTS header), the samples after them vary
     #[serde(default)]
     pub uniform: Option<(u32, u8, u8)>,
+    /// shapes of the 16 samples right after the warm-up, cycled (empty: the warm-up shape with one bit flipped at a time)
+    #[serde(default)]
+    pub post: Vec<u8>,
 }
 
 impl ValidCase {
@@ -122,7 +125,13 @@ impl ValidCase {
                 shape: match e.uniform {
                     Some((n, v, _)) if i < n => v,
                     // right after the warm-up: the uniform shape with exactly one property changed at a time
-                    Some((n, v, _)) if i < n + 16 => v ^ (1u8 << ((i - n) % 8)),
+                    Some((n, v, _)) if i < n + 16 => {
+                        if e.post.is_empty() {
+                            v ^ (1u8 << ((i - n) % 8))
+                        } else {
+                            e.post[(i - n) as usize % e.post.len()]
+                        }
+                    }
                     _ => {
                         if e.shapes {
                             (i.wrapping_mul(37) % 256) as u8
@@ -141,7 +150,13 @@ impl ValidCase {
                 size: e.asize,
                 shape: match e.uniform {
                     Some((n, _, a)) if i < n => a,
-                    Some((n, _, a)) if i < n + 16 => a ^ (1u8 << ((i - n) % 8)),
+                    Some((n, _, a)) if i < n + 16 => {
+                        if e.post.is_empty() {
+                            a ^ (1u8 << ((i - n) % 8))
+                        } else {
+                            e.post[(i - n) as usize % e.post.len()]
+                        }
+                    }
                     _ => {
                         if e.shapes {
                             (i.wrapping_mul(29) % 256) as u8
@@ -188,7 +203,7 @@ fn long_case(cfg: CfgGene, v_start: u64, a_off: u32, order: u8, e: Expand) -> Va
 
 /// Long and large recordings (counts and sizes the random histories do not reach).  `huge`: also the > 2^20-sample recording.
 pub fn long_cases(huge: bool) -> Vec<ValidCase> {
-    let ex = |nv: u32, na: u32| Expand { nv, na, vd: 3000, ad: 1920, vsize: 19, asize: 17, reorder_from: u32::MAX, key_every: 30, irregular_every: 0, bigs: vec![], shapes: true, uniform: None };
+    let ex = |nv: u32, na: u32| Expand { nv, na, vd: 3000, ad: 1920, vsize: 19, asize: 17, reorder_from: u32::MAX, key_every: 30, irregular_every: 0, bigs: vec![], shapes: true, uniform: None, post: vec![] };
     let mut v = vec![
         long_case(long_cfg(0, 0, true), 0, 0, 0, ex(1100, 0)),
         long_case(long_cfg(1, 0, false), 9000, 0, 0, Expand { irregular_every: 7, ..ex(2200, 0) }),
@@ -210,6 +225,14 @@ pub fn long_cases(huge: bool) -> Vec<ValidCase> {
         long_case(long_cfg(0, 1, true), 0, 0, 1, Expand { uniform: Some((1500, 1, 1)), ..ex(1600, 1600) }),
         long_case(long_cfg(1, 2, false), 0, 0, 5, Expand { uniform: Some((1100, 0, 0)), ..ex(1200, 1200) }),
         long_case(long_cfg(0, 1, false), 0, 0, 1, Expand { uniform: Some((600, 129, 0)), key_every: 1, ..ex(700, 700) }),
+        // ... and warm-ups followed by ONE other kind of frame (a state machine that resets on the first odd frame would
+        // hide everything behind it): mixed start codes with a 4-byte / 3-byte first unit, 3-byte only, AUD + SEI in front,
+        // trailing zeros; the other ADTS protection form / another profile
+        long_case(long_cfg(0, 1, true), 0, 0, 1, Expand { uniform: Some((1100, 1, 1)), post: vec![32], ..ex(1130, 1130) }),
+        long_case(long_cfg(1, 1, false), 0, 0, 1, Expand { uniform: Some((1100, 1, 0)), post: vec![33], ..ex(1130, 1130) }),
+        long_case(long_cfg(0, 2, true), 0, 0, 1, Expand { uniform: Some((1100, 1, 1)), post: vec![48, 96], ..ex(1130, 600) }),
+        long_case(long_cfg(1, 0, true), 0, 0, 0, Expand { uniform: Some((1100, 1, 0)), post: vec![7, 129, 160], ..ex(1130, 0) }),
+        long_case(long_cfg(0, 1, false), 0, 0, 1, Expand { uniform: Some((1100, 0, 0)), post: vec![1, 33], ..ex(1130, 1130) }),
         // single samples at the next powers of two (4, 8, 16 MiB), never the first sample of the file
         long_case(long_cfg(0, 1, true), 0, 0, 1, Expand { bigs: vec![(2, (4 << 20) + 5)], ..ex(5, 6) }),
         long_case(long_cfg(3, 0, false), 0, 0, 0, Expand { bigs: vec![(1, (4 << 20) - 3), (3, 4 << 20)], ..ex(5, 0) }),
